@@ -196,11 +196,18 @@ package operationparser
 //@   ensures err == nil ==> (op.Type == operation.TypeCreate || op.Type == operation.TypeUpdate || op.Type == operation.TypeRecover || op.Type == operation.TypeDeactivate) && op.Type == reqType(operationBuffer)
 //@   ensures err == nil && op.Type == operation.TypeUpdate ==> op.Delta == reqDelta(operationBuffer) && op.SignedData == reqSD(operationBuffer)
 //@   ensures err == nil && op.Type == operation.TypeRecover ==> op.SignedData == reqSD(operationBuffer)
+//   C12 at the intake entry points: an accepted request never re-commits to the key it reveals (update, recover), and a
+//   recover's / create's update commitment differs from its recovery commitment; outside batch mode nothing is exempt
+//@   ensures err == nil && !batch && op.Type == operation.TypeUpdate ==> reqDelta(operationBuffer) != nil && mhCodeOK(reqDelta(operationBuffer).UpdateCommitment) && commitOf(updKey(reqSD(operationBuffer)), uint(mhCodeOf(reqDelta(operationBuffer).UpdateCommitment))) != reqDelta(operationBuffer).UpdateCommitment
+//@   ensures err == nil && op.Type == operation.TypeRecover ==> mhCodeOK(recCommit(reqSD(operationBuffer))) && commitOf(recKey(reqSD(operationBuffer)), uint(mhCodeOf(recCommit(reqSD(operationBuffer))))) != recCommit(reqSD(operationBuffer))
+//@   ensures err == nil && !batch && op.Type == operation.TypeRecover ==> reqDelta(operationBuffer) != nil && reqDelta(operationBuffer).UpdateCommitment != recCommit(reqSD(operationBuffer))
 //@   modifies tvCalls, tvFrom, tvUntil
 //
 //@ func (*Parser).Parse
 //@   requires cfgOK(p)
 //@   ensures err == nil ==> len(operationBuffer) <= p.MaxOperationSize && r0 != nil
+//@   ensures err == nil && r0.Type == operation.TypeUpdate ==> reqDelta(operationBuffer) != nil && mhCodeOK(reqDelta(operationBuffer).UpdateCommitment) && commitOf(updKey(reqSD(operationBuffer)), uint(mhCodeOf(reqDelta(operationBuffer).UpdateCommitment))) != reqDelta(operationBuffer).UpdateCommitment
+//@   ensures err == nil && r0.Type == operation.TypeRecover ==> mhCodeOK(recCommit(reqSD(operationBuffer))) && commitOf(recKey(reqSD(operationBuffer)), uint(mhCodeOf(recCommit(reqSD(operationBuffer))))) != recCommit(reqSD(operationBuffer)) && reqDelta(operationBuffer) != nil && reqDelta(operationBuffer).UpdateCommitment != recCommit(reqSD(operationBuffer))
 //@   modifies tvCalls, tvFrom, tvUntil
 //
 // "never a panic": GetCommitment / GetRevealValue on arbitrary bytes (zero-annotation safety obligations)
@@ -224,3 +231,6 @@ package operationparser
 //@ func (*Parser).ParseDID
 //@   results did, req, err
 //@   ensures err == nil && req != nil ==> (exists v any :: jcsOK(v) && req == jcs(v))
+//   the DID handed back is literally the input (short form) or the input up to the separator in front of the initial
+//   state (long form): the caller compares its suffix text with the suffix derived from the initial state
+//@   ensures err == nil ==> did == shortOrLongFormDID || (exists k int :: 0 <= k && k < len(shortOrLongFormDID) && did == shortOrLongFormDID[0:k])
